@@ -1769,6 +1769,30 @@ impl Db {
 		self.inner.stats()
 	}
 
+	/// Verification hook (read-only, call on a quiescent handle: every log enacted): for each
+	/// value table of column `col` whose file exists or whose header is not the initial one:
+	/// `(tier, entry_size, filled, last_removed, free list length)`.
+	#[cfg(pdb_verif)]
+	pub fn verif_table_state(&self, col: ColId) -> Result<Vec<(u8, u16, u64, u64, u64)>> {
+		self.inner.columns[col as usize].verif_with_value_tables(|tables| {
+			let mut out = Vec::new();
+			for (tier, t) in tables.iter().enumerate() {
+				let (entry_size, filled, last_removed, free) = t.verif_state()?;
+				if filled > 1 || last_removed != 0 {
+					out.push((tier as u8, entry_size, filled, last_removed, free));
+				}
+			}
+			Ok(out)
+		})
+	}
+
+	/// Verification hook (read-only, quiescent handle): raw file bytes of one slot.
+	#[cfg(pdb_verif)]
+	pub fn verif_table_entry(&self, col: ColId, tier: u8, index: u64) -> Result<Vec<u8>> {
+		self.inner.columns[col as usize]
+			.verif_with_value_tables(|tables| tables[tier as usize].verif_entry(index))
+	}
+
 	pub fn get_num_column_value_entries(&self, col: ColId) -> Result<u64> {
 		let column = &self.inner.columns[col as usize];
 		match column {
